@@ -830,7 +830,10 @@ impl File {
                 Stamp::from_metadata(&metadata)?,
             )),
             Err(e) => {
-                if e.kind() == io::ErrorKind::NotFound {
+                if e.kind() == io::ErrorKind::NotFound
+                    || e.raw_os_error() == Some(nix::errno::Errno::ENOTDIR as i32)
+                {
+                    // (below something that is not a directory there is no file either)
                     Ok((false, Stamp::MISSING))
                 } else {
                     Err(RedoError::opaque_error(e))
